@@ -91,6 +91,12 @@ class CfgScenario(explore.Scenario):
             e = w.g.Edge(w.nodes[s], w.nodes[t], self.labels(w.g)[l])
             if fresh:
                 return e
+            if i % 2 == 0 and e.label is not None:
+                # built the way `edge._replace(label=...)` / `Edge._make`
+                # build edges: a label object of its own, constructor bypassed
+                lab = e.label
+                e = w.g.Edge._make((e.source, e.target,
+                                    type(lab)(*tuple(lab))))
             cache[key] = e
         return cache[key]
 
@@ -113,7 +119,8 @@ class CfgScenario(explore.Scenario):
         n = len(self.universe)
         out = []
         for i in range(n):
-            for m in ("add", "discard", "remove", "discard_eq", "contains"):
+            for m in ("add", "discard", "remove", "discard_eq", "contains",
+                      "contains_eq", "add_eq"):
                 out.append([m, i])
             out.append(["update", [i, i]])
         out.append(["pop"])
@@ -155,8 +162,10 @@ class CfgScenario(explore.Scenario):
             new.add(op[1])
         elif kind in ("discard", "discard_eq"):
             new.discard(op[1])
-        elif kind == "contains":
+        elif kind in ("contains", "contains_eq"):
             want_ret = "bool:%s" % (op[1] in M)
+        elif kind == "add_eq":
+            new.add(op[1])
         elif kind in ("adjacency", "iterate"):
             want_ret = "any"
         elif kind == "remove":
@@ -202,6 +211,10 @@ class CfgScenario(explore.Scenario):
                 res = cfg.discard(self.edge(w, op[1], fresh=True))
             elif kind == "contains":
                 res = self.edge(w, op[1]) in cfg
+            elif kind == "contains_eq":
+                res = self.edge(w, op[1], fresh=True) in cfg
+            elif kind == "add_eq":
+                res = cfg.add(self.edge(w, op[1], fresh=True))
             elif kind == "adjacency":
                 node = w.nodes[op[1]]
                 res = (len(list(cfg.out_edges(node))), len(list(cfg.in_edges(node))),
